@@ -672,7 +672,74 @@ fn generate(seed: u64, n_cases: usize, tier: &str) {
             out.line(random_op(&mut rng, thorough));
         }
     }
+    // input-domain family (`d<id>`, own random stream; the cases above stay as they are): the value classes of
+    // the public types the random ops never draw - i64 limits of `chk int` / `appr` / `refuse`, `chk dec` at the
+    // ends of the Decimal range (2^96-1, 1e-28, either sign), request lists whose opens carry SIGNED prices /
+    // quantities (negative, 1e-28, 2^96-1), indices / ids / the u64 state at their limits
+    let mut drng = Rng::new(seed ^ 0xD0_3A_11_5E_ED);
+    for _ in 0..n_cases / 8 {
+        id += 1;
+        out.case(format!("d{id}"));
+        let len = drng.range(3, if thorough { 16 } else { 10 });
+        for _ in 0..len {
+            out.line(domain_op(&mut drng));
+        }
+    }
     out.flush();
+}
+
+const I64_EDGE: &[i64] = &[i64::MIN, i64::MIN + 1, -1, 0, 1, i64::MAX - 1, i64::MAX];
+const DEC_EDGE: &[&str] = &[
+    "79228162514264337593543950335", "-79228162514264337593543950335", "79228162514264337593543950334",
+    "7922816251426433759354395033.5", "0.0000000000000000000000000001", "-0.0000000000000000000000000001",
+    "0.0000000000000000000000000002", "0", "-0", "1", "-1",
+];
+const SIGNED_REQ_DEC: &[&str] = &[
+    "-1", "-0.5", "-100", "0", "0.0000000000000000000000000001", "79228162514264337593543950335",
+    "-79228162514264337593543950335", "1", "100.5",
+];
+
+fn domain_op(rng: &mut Rng) -> String {
+    match rng.below(10) {
+        0 | 1 => format!("chk int {} {}", rng.pick(I64_EDGE), rng.pick(I64_EDGE)),
+        2 | 3 => format!("chk dec {} {}", rng.pick(DEC_EDGE), rng.pick(DEC_EDGE)),
+        4..=7 => {
+            let nc = rng.below(4);
+            let no = 1 + rng.below(4);
+            let big = |rng: &mut Rng, small: u64| if rng.chance(25) { 1_000_000 } else { rng.below(small) };
+            let mut s = format!("rm {} C", rng.pick(&[0u64, 1, u64::MAX, u64::MAX - 1, 1u64 << 63]));
+            for _ in 0..nc {
+                let (ex, ins, cid) = (big(rng, 2), big(rng, 3), big(rng, 4));
+                s.push_str(&format!(
+                    " {ex}:{ins}:{}:{cid}:{}",
+                    rng.below(2),
+                    if rng.chance(50) { "-".to_string() } else { big(rng, 3).to_string() }
+                ));
+            }
+            s.push_str(" O");
+            for _ in 0..no {
+                let (ex, ins, cid) = (big(rng, 2), big(rng, 3), big(rng, 4));
+                s.push_str(&format!(
+                    " {ex}:{ins}:{}:{cid}:{}:{}:{}:{}:{}",
+                    rng.below(2),
+                    side(rng),
+                    rng.pick(SIGNED_REQ_DEC),
+                    rng.pick(SIGNED_REQ_DEC),
+                    rng.pick(&["M", "L"]),
+                    rng.pick(&["gtc", "gtcp", "day", "fok", "ioc"]),
+                ));
+            }
+            s
+        }
+        8 => format!("appr {}", rng.pick(I64_EDGE)),
+        _ => {
+            if rng.chance(50) {
+                format!("refuse {} {}", rng.pick(I64_EDGE), rng.pick(&["rec", "unrec"]))
+            } else {
+                format!("refuses {} {}", rng.pick(I64_EDGE), rng.pick(&["too-big", "refused", "x"]))
+            }
+        }
+    }
 }
 
 fn main() {
